@@ -50,6 +50,7 @@ XEvent(r) ==
     \/ /\ r.ev = "elemoff" /\ Ly!ElemOffOK(r) /\ UNCHANGED <<gaVars, xVars>>
     \/ /\ r.ev = "cdef" /\ Ly!CDefOK(r) /\ UNCHANGED <<gaVars, xVars>>
     \/ /\ r.ev = "zeroize" /\ Ly!ZeroizeOK(r) /\ UNCHANGED <<gaVars, xVars>>
+    \/ /\ r.ev = "zcalls" /\ Ly!ZCallsOK(r) /\ UNCHANGED <<gaVars, xVars>>
     \/ /\ r.ev = "hex" /\ Hx!HexOK(r) /\ UNCHANGED <<gaVars, xVars>>
     \/ /\ r.ev = "hexsink" /\ Hx!HexSinkOK(r) /\ UNCHANGED <<gaVars, xVars>>
     \/ /\ r.ev = "cmp" /\ Cp!CmpOK(r) /\ UNCHANGED <<gaVars, xVars>>
